@@ -65,6 +65,7 @@ type profile struct {
 	Ids     []string          `json:"ids"`     // IdSeq of the TLC run (bit j of a mask = Ids[j])
 	Keys    map[string]string `json:"keys"`    // abstract key -> concrete metadata field name
 	Strs    map[string]string `json:"strs"`    // abstract word -> concrete string (true/false stay booleans)
+	NumStr  map[string]int    `json:"numstr"`  // abstract numeric-looking strings -> their numeric reading (NumStr of Filter.tla)
 	NumMul  float64           `json:"num_mul"` // abstract number n -> n*NumMul + NumAdd (strictly increasing)
 	NumAdd  float64           `json:"num_add"`
 	Native  bool              `json:"native"` // hand numbers as Go int and lists as []string to the Go API (instead of float64 / []any)
@@ -110,6 +111,7 @@ type output struct {
 	SearchEqual  int          `json:"search_equal"` // VSearch returned exactly the expected set
 	NonTrivial   int          `json:"nontrivial"`   // expected set neither empty nor all live ids
 	NonEmpty     int          `json:"nonempty"`
+	Unjudged     int          `json:"unjudged"`
 	DivTotal     int          `json:"div_total"`
 	DivPinned    int          `json:"div_pinned"` // divergences equal to the prediction for the pinned transcription
 	Divergences  []divergence `json:"divergences"`
@@ -145,14 +147,27 @@ func (r *runner) key(k string) string {
 	return k
 }
 
+func (r *runner) num(n int) float64 { return float64(n)*r.p.NumMul + r.p.NumAdd }
+
+// word refines an abstract string.  A numeric-looking one becomes the text of the number its reading is
+// refined to: the canonical spelling ("1" -> 1.5), or a second spelling of it ("1.0" -> 1.50).
 func (r *runner) word(w string) string {
+	if n, ok := r.p.NumStr[w]; ok {
+		t := strconv.FormatFloat(r.num(n), 'f', -1, 64)
+		if w != strconv.Itoa(n) {
+			if strings.Contains(t, ".") {
+				t += "0"
+			} else {
+				t += ".0"
+			}
+		}
+		return t
+	}
 	if c, ok := r.p.Strs[w]; ok {
 		return c
 	}
 	return w
 }
-
-func (r *runner) num(n int) float64 { return float64(n)*r.p.NumMul + r.p.NumAdd }
 
 // goValue refines an abstract metadata value into what a client hands to the Go API
 func (r *runner) goValue(v value) (any, bool) {
@@ -251,10 +266,11 @@ func (r *runner) renderClause(c clause, rng *rand.Rand) string {
 		if !isBool {
 			w = r.word(w)
 		}
+		_, numeric := r.p.NumStr[c.S] // a textual literal that looks numeric is always quoted
 		switch q := rng.Intn(10); {
 		case q < 5:
 			lit = "'" + w + "'"
-		case q < 8 || !(r.p.Bare || isBool) || !isPlainWord(w):
+		case q < 8 || numeric || !(r.p.Bare || isBool) || !isPlainWord(w):
 			lit = "\"" + w + "\""
 		default:
 			lit = w
@@ -415,7 +431,9 @@ func (r *runner) judge(b *behaviour, si int, rng *rand.Rand) (ndiv int) {
 	// the mask of all live ids is what "k != <never used>" would give; approximate triviality with
 	// the largest expected mask of the state
 	for _, m := range st.Exp {
-		liveAll |= m
+		if m > 0 {
+			liveAll |= m
+		}
 	}
 	// a divergence that is exactly what the specification predicts for the pinned transcription is
 	// kept MaxDiv times per state (and counted); any other divergence is always kept
@@ -459,6 +477,10 @@ func (r *runner) judge(b *behaviour, si int, rng *rand.Rand) (ndiv int) {
 	for fi := range r.p.Filters {
 		expr := r.render(fi, rng)
 		exp := st.Exp[fi]
+		if exp < 0 { // not judged in this state: its answer depends on an undocumented reading (ClearPair of Filter.tla)
+			r.out.Unjudged++
+			continue
+		}
 		pin, hasPin := []string{}, false
 		if len(st.Pin) == len(st.Exp) && st.Pin[fi] != exp {
 			pin, hasPin = r.idsOf(st.Pin[fi]), true
